@@ -17,7 +17,7 @@ THEOREMS = [_TC + n for n in (
     "settle_evs_false", "timeout_false_not_counted", "settled_final", "cond_gc_purges",
 )] + [_TE + n for n in (
     "inv_after", "no_residue", "pending_registered", "set_means_nobody_waits", "wait_when_set", "set_completes",
-    "deadline_times_out", "settled_final",
+    "deadline_times_out", "settled_final", "timeout_only_by_own_deadline", "event_wait_iff",
 )]
 TRUSTED = [
     "asyncio event loop ordering as abstracted by the model's drain (see C33); gen.with_timeout / chain_future as "
@@ -37,8 +37,8 @@ CLAUSES = {
     "a condition wakes exactly min(n, live waiters) waiters in arrival order with True": "Cond.notify_wakes_min + Cond.popN_spec + Cond.liveQueue_is_arrival_order + Cond.notify_sets_true (+ notifyAll_wakes_all)",
     "a timed-out wait resolves False and is never counted as notified": "Cond.settle_evs_false + Cond.timeout_false_not_counted + Cond.settled_final",
     "an event's wait completes iff the event is set at or after the call before its deadline, otherwise TimeoutError":
-        "Event.wait_when_set + Event.set_completes + Event.set_means_nobody_waits + Event.deadline_times_out + Event.settled_final; "
-        "the 'only a due deadline produces TimeoutError' direction is tie only (Spec oracle)",
+        "Event.event_wait_iff (= wait_when_set + set_completes + set_means_nobody_waits + deadline_times_out + "
+        "timeout_only_by_own_deadline) + Event.settled_final",
     "finished waits leave no residue": "Event.no_residue + Event.pending_registered (Condition: Cond.cond_gc_purges)",
     "checked against a sequential reference model": "tie: Spec.Cond / Spec.Event are the oracle on every case",
 }
